@@ -26,6 +26,9 @@ VALUES = {
     "decimal": [("0",), ("1.50",), ("-123456789.123456789",), ("7",), ("0.001",)],
     "date": [("1970-01-01",), ("2024-02-29",), ("0001-01-01",), ("9999-12-31",), ("2000-06-15",)],
     "blob": [("\\x00",), ("",), ("\\xde\\xad\\xbe\\xef",), ("abc",), ("\\xff\\x00",)],
+    "interval": [("1 month",), ("27 days 3 hours",), ("1 year 2 months 3 days",), ("0 days",), ("90 seconds",)],
+    "timestamp": [("2000-01-01 00:00:00",), ("1970-01-01 00:00:01",), ("2024-02-29 23:59:59",), ("1999-12-31 12:00:00",),
+                  ("2038-01-19 03:14:08",)],
     # fixed-width CHAR(5) (no production path builds it; reached through verif_api): '', short and full-width values
     "char5": ["", "a", "abcde", "ab", "vwxyz"],
 }
